@@ -13,8 +13,8 @@ from esim.run import RunCtx, Tap, run_program
 from . import base
 
 ID = "C03"
-QUICK_RUNS = 6000
-THOROUGH_RUNS = 400000
+QUICK_RUNS = 20000
+THOROUGH_RUNS = 800000
 LEVEL = "exploration"
 RULE = ("one run = one generated program whose action bodies exit by return / raise of 14 exception classes "
         "(caught at a drawn outer level or not at all) / asyncio cancellation at a drawn virtual time / "
